@@ -89,4 +89,61 @@ theorem delivered_is_reassembly (i r : Bool) (g : Option Nat) (ops : List EOp) (
     ∃ full, (run (freshMon i r g) ops).rs.done[k]? = some full ∧ b = full.take c :=
   (end_inv ops _ (minv_fresh i r g) hw).dlv k b c hk
 
+/-! ## Hostile peer: protocol violations are refused -/
+
+/-- **Hostile peer, clause "refused with an error"**: a data segment that violates the protocol in
+one of the ways named by the property — wrong sequence number, window overrun, acknowledgement of
+something that is not awaiting one, inconsistent length or flags (`Spec.mustReject`, evaluated on
+the protocol-level view `viewOf s` of the state) — is refused with `InvalidData`; the state is
+unchanged (`Except`), so by `delivered_is_reassembly` it can never reach the application. -/
+theorem hostile_segment_refused (s : Session) (hs : SInv s) (h : Hdr) (hh : h.Wf) (hhs : h.hs = false)
+    (p : List Nat) (now : Nat) (hm : Spec.mustReject (viewOf s) h p = true) :
+    s.processRxData h p now = .error .invalidData :=
+  mustReject_refused s hs h hh hhs p now hm
+
+/-- Non-vacuity: on an established session (window 5, nothing sent yet) a stand-alone
+acknowledgement of the never-sent sequence number 77 is a violation, and so is a data segment with
+sequence number 5 when 0 is expected. -/
+example : ∃ s, (Session.fresh false false).processRx none [0x65, 0x6c, 4, 0, 0, 0, 23, 0, 5] 0 = .ok s ∧
+    Spec.mustReject (viewOf s) { ack := true, ackNum := 77, seqNum := 0 } [] = true ∧
+    Spec.mustReject (viewOf s) { beg := true, fin := true, msgLen := 1, seqNum := 5 } [7] = true := by
+  exact ⟨_, rfl, by decide, by decide⟩
+
+/-! ## Window slots and the acknowledgement deadline (session level) -/
+
+/-- **Never more unacknowledged segments than the window (sender side)**: a segment is emitted only
+while the send window has a free slot and takes exactly one; together with `SInv.sendLe`
+(`level ≤ window`) and `SendWindow.checkIncoming` (only acknowledgements of segments that are
+awaiting one re-open slots) the number `window − level` of unacknowledged segments never exceeds
+the negotiated window. -/
+theorem emits_only_with_free_slot {s : Session} {data : List Nat} {off now : Nat} {s' : Session}
+    {seg : List Nat} {off' : Nat} (hok : s.prepTxData data off now = .ok (s', seg, off'))
+    (hseg : seg ≠ []) :
+    1 ≤ s.send.level ∧ s'.send.level + 1 = s.send.level ∧ s'.send.windowSize = s.send.windowSize := by
+  obtain ⟨h1, h2, _, h4, _⟩ := prepTxData_emits hok hseg
+  exact ⟨h1, h2, h4⟩
+
+/-- **Acknowledgement before the deadline**: every accepted data segment stamps the receive window
+with the current instant and leaves an acknowledgement pending ... -/
+theorem accepted_segment_is_stamped {s : Session} {h : Hdr} {p : List Nat} {now : Nat} {s' : Session}
+    (hok : s.processRxData h p now = .ok s') :
+    s'.recv.receivedAt = some now ∧ s'.recv.ackLevel = s.recv.ackLevel + 1 ∧ s'.recv.ackSeq = h.seqNum :=
+  accepted_stamps hok
+
+/-- ... `is_ack_due` answers yes no later than `received_at + ack timeout` whenever an
+acknowledgement is pending (i.e. something is unacknowledged and no complete message waits to be
+fetched) ... -/
+theorem ack_due_at_deadline (s : Session) (t now : Nat) (hp : s.recv.pendingAck.isSome = true)
+    (ht : s.recv.receivedAt = some t) (hd : t + ackTimeoutSecs ≤ now) :
+    s.isAckDue now ackTimeoutSecs = true :=
+  isAckDue_at_deadline s t now hp ht hd
+
+/-- ... and the pump then emits a segment carrying exactly that acknowledgement, provided the send
+window has a free slot (when it has none, the peer owes us an acknowledgement first). -/
+theorem due_ack_is_emitted (e : End) (he : EInv e) (now : Nat)
+    (hdue : e.s.isAckDue now ackTimeoutSecs = true) (hl : 1 ≤ e.s.send.level) :
+    ∃ e' seg, e.ackStep now = .ok (e', seg) ∧ seg ≠ [] ∧ e'.s.recv.ackLevel = 0 ∧
+      (decodeHdr seg).toOption.map (fun hp => hp.1.getAck) = some (some e.s.recv.ackSeq) :=
+  ack_emitted e he now hdue hl
+
 end C18
